@@ -95,7 +95,7 @@ Proof.
   intros H. unfold result_type. pose proof (cores_of_perm _ _ H) as Hc.
   rewrite (existsb_perm _ _ _ H).
   destruct (cores_of l) as [a|], (cores_of l') as [b|]; try contradiction; auto.
-  rewrite (np_result_type_perm _ _ Hc).
+  rewrite (np_result_type_perm _ _ Hc). unfold mixes_str. rewrite !(existsb_perm _ _ _ Hc).
   destruct a, b; auto.
   - apply Permutation_nil in Hc; discriminate.
   - apply Permutation_sym, Permutation_nil in Hc; discriminate.
@@ -108,7 +108,8 @@ Lemma result_type_dup x l : result_type (x :: x :: l) = result_type (x :: l).
 Proof.
   unfold result_type; simpl. destruct (core_of x) as [c|]; auto.
   destruct (cores_of l) as [cs|]; auto.
-  rewrite np_result_type_dup. destruct (is_nullable x); simpl; auto.
+  rewrite np_result_type_dup. unfold mixes_str; simpl. rewrite !orb_assoc, !orb_diag.
+  destruct (is_nullable x); simpl; auto.
 Qed.
 
 (* -- nullability is opt-in and closed ------------------------------------------------------ *)
@@ -116,6 +117,7 @@ Lemma result_type_nullable ds d : result_type ds = Ok d ->
   (is_nullable d = true <-> exists x, In x ds /\ is_nullable x = true).
 Proof.
   unfold result_type. destruct (cores_of ds) as [[|c cs]|]; try discriminate.
+  destruct (mixes_str (c :: cs)); try discriminate.
   intros [= <-]. rewrite <- existsb_exists.
   destruct (existsb is_nullable ds); simpl; split; auto; discriminate.
 Qed.
@@ -211,10 +213,44 @@ Proof.
   intros [= ->]. split; now apply eqb_prop.
 Qed.
 
-(* ... but the public result_type DOES promote strings with non-strings (finding) *)
-Lemma result_type_string_refuted :
-  exists a b, is_str_dtype a <> is_str_dtype b /\ exists t, result_type [a; b] = Ok t.
-Proof. exists (DCore CStr), (DCore CI32). split; [simpl; discriminate|]. eexists; reflexivity. Qed.
+(* ... and neither does the public result_type (after the repair recorded as
+   fixed: C03-result-type-promotes-strings) *)
+Lemma s_str_summ cs : s_str (summ cs) = existsb is_str cs.
+Proof. unfold summ. induction cs as [|c r IH]; simpl; auto. rewrite IH. destruct c; reflexivity. Qed.
+
+Lemma np_result_is_str cs : is_str (np_result_type cs) = existsb is_str cs.
+Proof.
+  unfold np_result_type. fold (summ cs). rewrite <- s_str_summ. unfold s_result.
+  destruct (s_str (summ cs)); [reflexivity|].
+  repeat match goal with |- context [if ?b then _ else _] => destruct b end;
+    unfold float_of_bits, signed_of_bits, unsigned_of_bits;
+    repeat match goal with |- context [if ?b then _ else _] => destruct b end; reflexivity.
+Qed.
+
+Lemma cores_of_in ds cs d : cores_of ds = Some cs -> In d ds -> exists c, core_of d = Some c /\ In c cs.
+Proof.
+  revert cs. induction ds as [|x r IH]; intros cs H Hd; simpl in *; [tauto|].
+  destruct (core_of x) as [c|] eqn:Ec; [|discriminate]. destruct (cores_of r) as [cs'|]; [|discriminate].
+  injection H as <-. destruct Hd as [-> | Hd].
+  - exists c. split; auto. now left.
+  - destruct (IH cs' eq_refl Hd) as [c' [H1 H2]]. exists c'. split; auto. now right.
+Qed.
+
+Lemma result_type_string_isolated ds t : result_type ds = Ok t ->
+  forall d, In d ds -> is_str_dtype d = is_str_dtype t.
+Proof.
+  unfold result_type. destruct (cores_of ds) as [cs|] eqn:Ec; [|discriminate].
+  destruct cs as [|c0 cs0]; [discriminate|]. set (cs := c0 :: cs0) in *.
+  destruct (mixes_str cs) eqn:Em; [discriminate|]. intros [= <-] d Hd.
+  destruct (cores_of_in _ _ _ Ec Hd) as [c [Hc Hin]].
+  assert (Ht : is_str_dtype (if existsb is_nullable ds then DNull (np_result_type cs) else DCore (np_result_type cs)) = existsb is_str cs).
+  { destruct (existsb is_nullable ds); unfold is_str_dtype; simpl; apply np_result_is_str. }
+  rewrite Ht. unfold is_str_dtype. rewrite Hc. unfold mixes_str in Em.
+  destruct (is_str c) eqn:Es.
+  - symmetry. apply existsb_exists. exists c. auto.
+  - assert (H : existsb (fun c1 => negb (is_str c1)) cs = true) by (apply existsb_exists; exists c; rewrite Es; auto).
+    rewrite H, andb_true_r in Em. now rewrite Em.
+Qed.
 
 Lemma into_nullable_bij c : into_nullable (DCore c) = DNull c.
 Proof. reflexivity. Qed.
